@@ -1,4 +1,4 @@
-import OmplModel.Proofs.SpaceInterpCompoundSO3
+import OmplModel.Proofs.SpaceInterpAll
 /-!
 C07: concrete spaces and states for the non-vacuity examples of Props/C07.lean, with their
 side conditions discharged once.
@@ -100,5 +100,38 @@ theorem se3_slerp_branch : dblEps < arcLength (0 : ℝ) 0 0 1 1 0 0 0 := by
   rw [arcLength_eq, quatDot_eq]
   norm_num
   linarith [pi_gt_three]
+
+/-- a compound with every kind of component: [Klein, SE(3), Mobius] -/
+noncomputable def allSp : Space ℝ := .ccons 1 .klein (.ccons 1 se3 (.ccons 1 (.mobius 1 2) .cnil))
+noncomputable def allA : St ℝ :=
+  .ccons (.ccons (.rv [0]) (.ccons (.so2 3) .cnil))
+    (.ccons se3A (.ccons (.ccons (.so2 3) (.ccons (.rv [1]) .cnil)) .cnil))
+noncomputable def allB : St ℝ :=
+  .ccons (.ccons (.rv [3]) (.ccons (.so2 (-3)) .cnil))
+    (.ccons se3B (.ccons (.ccons (.so2 (-3)) (.ccons (.rv [-1]) .cnil)) .cnil))
+
+theorem allA_wt : wellTyped allSp allA = true := by simp [allSp, allA, wellTyped, se3A_wt]
+theorem allB_wt : wellTyped allSp allB = true := by simp [allSp, allB, wellTyped, se3B_wt]
+theorem allA_unit : unitQuats allSp allA := by simp [allSp, allA, unitQuats, se3A_unit]
+theorem allB_unit : unitQuats allSp allB := by simp [allSp, allB, unitQuats, se3B_unit]
+theorem allA_klein : kleinRange allSp allA := by
+  simp [allSp, allA, kleinRange, pi_pos.le, se3, se3A]
+theorem allB_klein : kleinRange allSp allB := by
+  simp [allSp, allB, kleinRange, se3, se3B]; exact pi_gt_three.le
+theorem allA_inB : inBounds allSp allA = true := by
+  simp only [allSp, allA, inBounds, rvInB, se3A_inB, three_inB.1, dblEps_eq, pi_eq, ofNat_zero]
+  norm_num
+  linarith [pi_gt_three]
+theorem allB_inB : inBounds allSp allB = true := by
+  simp only [allSp, allB, inBounds, rvInB, se3B_inB, three_inB.2, dblEps_eq, pi_eq, ofNat_zero]
+  norm_num
+  linarith [pi_gt_three]
+
+/-- Klein states across the seam (|Δu| = 3 > π/2) -/
+theorem klein_ex_inB : inBounds (.klein : Space ℝ) (.ccons (.rv [0]) (.ccons (.so2 3) .cnil)) = true
+    ∧ inBounds (.klein : Space ℝ) (.ccons (.rv [3]) (.ccons (.so2 (-3)) .cnil)) = true := by
+  simp only [inBounds, rvInB, three_inB.1, three_inB.2, dblEps_eq, pi_eq, ofNat_zero]
+  norm_num
+  constructor <;> linarith [pi_gt_three]
 
 end OmplModel.SpaceInterp.Ex
